@@ -350,6 +350,21 @@ def judge(ctx, cfg, ninst, script, horizon, seed, replay, tags=()):
                 bad("offer-content-differs-from-configuration", instance=k, entry=e, t=msg["t"])
             obs[k].append(dict(t=msg["t"], kind=kind, dst=msg["dst"], ttl=e["ttl"]))
 
+    # ---- wire order: once an instance's StopOffer has left, no live offer for it leaves - to anyone - until it is started again
+    # (an answer to a FindService that was still waiting in a unicast send collector has to leave before the StopOffer)
+    for k in range(ninst):
+        stop_t = None
+        for o in obs[k]:
+            if o["kind"] == "stop":
+                stop_t = o["t"]
+                ctx.count("stopoffers_followed_on_the_wire")
+            elif stop_t is not None:
+                if any(stop_t - cfg["ct"] - tol <= s <= o["t"] + tol for s, _x in segs[k] if s is not None):
+                    stop_t = None  # started again meanwhile
+                    continue
+                bad("live-offer-on-the-wire-after-the-stopoffer", instance=k, stopoffer_sent_at=stop_t, offer_sent_at=o["t"], dst=o["dst"])
+                break
+
     def fits(o, it):
         return it["kind"] == o["kind"] and it["dst"] == o["dst"] and it["lo"] - tol <= o["t"] <= it["hi"] + tol
 
@@ -440,7 +455,7 @@ def placed(T, pl):
 
 PLACEMENTS = ("d-eps", "d:before", "d:after", "d+eps", "d-res")
 KINDS = ("ann_stop", "unannounce", "stop_restart", "find_uc", "find_mc", "find_mc_then_stop", "find_uc_and_stop", "stop_and_find_uc",
-         "stop_then_find", "lost_then_stop", "double_stop", "find_wild_mc", "late_stop")
+         "stop_then_find", "lost_then_stop", "double_stop", "find_wild_mc", "late_stop", "find_uc_then_stop_in_window")
 
 
 def find_action(k, mc, peer=PEER, wild=False):
@@ -500,6 +515,14 @@ def single_scenario(cfg, kind, j, pl):
     elif kind == "find_uc_and_stop":
         script.append((t, rank, find_action(0, False)))
         script.append((t, rank, dict(kind="unannounce", k=0)))
+    elif kind == "find_uc_then_stop_in_window":
+        # the answer is already waiting in the requester's send collector when the instance is stopped half a collection
+        # window later: it still has to leave - ahead of the StopOffer, which may ride a multicast window that closes sooner
+        if not cfg["ct"]:
+            return None
+        script.append((t, rank, find_action(0, False)))
+        script.append((t + cfg["ct"] / 2, BEFORE, dict(kind=("ann_stop", "unannounce")[j % 2], **({"k": 0} if j % 2 else {}))))
+        tags.append("stop_while_an_answer_waits_in_the_send_collector")
     elif kind == "stop_and_find_uc":
         script.append((t, rank, dict(kind="ann_stop")))
         script.append((t, rank, find_action(0, False)))
